@@ -130,7 +130,7 @@ func c07FragTooLarge(budgetVar string) Sel {
 			if !ok || CalleeName(&lc.Call) != "builtin:len" {
 				continue
 			}
-			if src, ok := lc.Call.Args[0].(*ssa.Call); !ok || CalleeName(&src.Call) != ".HeaderBlockFragment" {
+			if src, ok := BaselineArgs(&lc.Call)[0].(*ssa.Call); !ok || CalleeName(&src.Call) != ".HeaderBlockFragment" {
 				continue
 			}
 			mul, ok := r.(*ssa.BinOp)
